@@ -23,13 +23,19 @@ pub enum Px {
 
 /// C04 strata: 0 uniform [0,4]^3; 1 near black (scale log-uniform 1e-9..1e-1); 2 greys in [0,4];
 /// 3 single channel; 4 [-1,4]^3 with at least one negative component; 5 [0,1]^3 uniform;
-/// 6 R close to G (|R-G| log-uniform 1e-7..1e-2), any B; 7 lattice corners of [0,4]^3 / [0,1]^3
+/// 6 R close to G (|R-G| log-uniform 1e-7..1e-2), any B; 7 lattice corners of [0,4]^3 / [0,1]^3;
+/// 8 near-neutral: a grey level plus per-component perturbations of one common scale, log-uniform 1e-7..1e-3
 pub fn expand(stratum: u8, seed: u64, n: usize, unit_cube_only: bool) -> Vec<[f32; 3]> {
     let mut e = Expand(seed);
-    let hi = if unit_cube_only { 1.0 } else { 4.0 };
+    let hi: f64 = if unit_cube_only { 1.0 } else { 4.0 };
     let mut out = Vec::with_capacity(n);
     for _ in 0..n {
-        let p: [f64; 3] = match stratum % 8 {
+        let p: [f64; 3] = match stratum % 9 {
+            8 => {
+                let g = e.range_f64(0.0, hi.min(1.0));
+                let sc = 10f64.powf(e.range_f64(-7.0, -3.0));
+                [(g + sc * (2.0 * e.unit() - 1.0)).clamp(0.0, hi), (g + sc * (2.0 * e.unit() - 1.0)).clamp(0.0, hi), (g + sc * (2.0 * e.unit() - 1.0)).clamp(0.0, hi)]
+            }
             0 => [e.range_f64(0.0, hi), e.range_f64(0.0, hi), e.range_f64(0.0, hi)],
             1 => {
                 let s = 10f64.powf(e.range_f64(-9.0, -1.0));
@@ -73,7 +79,16 @@ pub fn expand(stratum: u8, seed: u64, n: usize, unit_cube_only: bool) -> Vec<[f3
 impl Case {
     pub fn pixels(&self, unit: bool) -> Vec<[f32; 3]> {
         match &self.px {
-            Px::Seeded { stratum, seed } => expand(*stratum, *seed, self.w * self.h, unit),
+            Px::Seeded { stratum, seed } => {
+                let mut px = expand(*stratum, *seed, self.w * self.h, unit);
+                if seed % 3 == 0 {
+                    // related neighbours; feedback = the library's own XYB / round-trip result of the previous pixel
+                    let fb = |p: [f32; 3]| -> Option<[f32; 3]> { LinearRgb::new(vec![p], 1, 1).ok().map(|l| Xyb::from(l).data()[0]) };
+                    let dom = |p: [f32; 3]| -> bool { p.iter().all(|x| x.is_finite() && *x >= 0.0 && *x <= if unit { 1.0 } else { 4.0 }) };
+                    correlate_px(&mut px, *seed, Some(&fb), &dom);
+                }
+                px
+            }
             Px::Explicit(v) => v.clone(),
         }
     }
@@ -87,7 +102,13 @@ impl Case {
 }
 
 pub fn strategy() -> BoxedStrategy<Case> {
-    (0u8..8, any::<u64>(), 1usize..=40, 1usize..=12).prop_map(|(stratum, seed, w, h)| Case { w, h, px: Px::Seeded { stratum, seed } }).boxed()
+    (0u8..9, any::<u64>(), 1usize..=40, 1usize..=12)
+        .prop_map(|(stratum, seed, w, h)| {
+            // single pixels and tiny images often: whole-image fast paths depend on all pixels
+            let (w, h) = if seed % 4 == 1 { shape_from(seed, 40, 12) } else { (w, h) };
+            Case { w, h, px: Px::Seeded { stratum, seed } }
+        })
+        .boxed()
 }
 
 /// is the pixel inside the domain C04 quantifies over?
@@ -158,7 +179,7 @@ pub fn check_c04(case: &Case, st: &mut Stats) -> Result<(), Violation> {
     }
     st.comparisons += px.len() as u64;
     if let Px::Seeded { stratum, .. } = case.px {
-        st.class(&format!("stratum_{}", stratum % 8), 1);
+        st.class(&format!("stratum_{}", stratum % 9), 1);
     }
     st.class(if px.len() % 8 == 0 { "pixel_count_multiple_of_8" } else { "pixel_count_not_multiple_of_8" }, 1);
     if nontrivial {
@@ -220,7 +241,7 @@ pub fn check_c05(case: &Case, st: &mut Stats) -> Result<(), Violation> {
     }
     st.comparisons += px.len() as u64;
     if let Px::Seeded { stratum, .. } = case.px {
-        st.class(&format!("stratum_{}", stratum % 8), 1);
+        st.class(&format!("stratum_{}", stratum % 9), 1);
     }
     st.class(if px.len() % 8 == 0 { "pixel_count_multiple_of_8" } else { "pixel_count_not_multiple_of_8" }, 1);
     if nontrivial {
@@ -283,5 +304,5 @@ pub fn replay_c05(v: &Value) -> Result<(), String> {
     check_c05(&Case::from_json(v).ok_or("bad case")?, &mut Stats::new()).map_err(|v| v.message)
 }
 
-pub const RULE_C04: &str = "cases = w x h images (1..40 x 1..12, so pixel counts of every residue) of linear-RGB pixels from 8 strata (uniform [0,4]^3, near black with log-uniform scale 1e-9..1e-1, greys, single channel, [-1,4]^3 with a negative component, unit cube, R close to G, lattice corners) generated by proptest, plus an enumerated lattice on [0,4]^3; every in-domain pixel compared with the f64 opsin definition (tol 2e-6); negative pixels whose opsin mixes fall in (-1e-3, 0.05) are converted but not compared (outside the stated domain) and counted; non-trivial = image containing a non-grey pixel; distinct = by hash of (w,h,pixel bits)";
-pub const RULE_C05: &str = "cases = w x h images (1..40 x 1..12) of linear-RGB pixels of [0,1]^3 from 8 strata (uniform, near black, greys, single channel, R close to G with |R-G| log-uniform 1e-7..1e-2, lattice corners) generated by proptest, plus an enumerated lattice on [0,1]^3; oracle = LinearRgb -> Xyb -> LinearRgb returns every component within 5e-5, dimensions preserved; non-trivial = image containing a non-grey pixel; distinct = by hash of (w,h,pixel bits)";
+pub const RULE_C04: &str = "cases = w x h images (1..40 x 1..12, so pixel counts of every residue) of linear-RGB pixels from 9 strata, a third of the images with related neighbours (equal / partly equal / fed-back pixels), single-pixel and tiny images over-represented (uniform [0,4]^3, near-neutral, near black with log-uniform scale 1e-9..1e-1, greys, single channel, [-1,4]^3 with a negative component, unit cube, R close to G, lattice corners) generated by proptest, plus an enumerated lattice on [0,4]^3; every in-domain pixel compared with the f64 opsin definition (tol 2e-6); negative pixels whose opsin mixes fall in (-1e-3, 0.05) are converted but not compared (outside the stated domain) and counted; non-trivial = image containing a non-grey pixel; distinct = by hash of (w,h,pixel bits)";
+pub const RULE_C05: &str = "cases = w x h images (1..40 x 1..12) of linear-RGB pixels of [0,1]^3 from 9 strata, a third of the images with related neighbours (equal / partly equal / fed-back pixels), single-pixel and tiny images over-represented (uniform, near-neutral (grey + perturbations of scale 1e-7..1e-3), near black, greys, single channel, R close to G with |R-G| log-uniform 1e-7..1e-2, lattice corners) generated by proptest, plus an enumerated lattice on [0,1]^3; oracle = LinearRgb -> Xyb -> LinearRgb returns every component within 5e-5, dimensions preserved; non-trivial = image containing a non-grey pixel; distinct = by hash of (w,h,pixel bits)";
